@@ -529,7 +529,11 @@ class World:
         eng = self.engines[engine]
         name = name or f"L{lid}"
         info = {"lid": lid, "engine": engine, "cols": list(cols), "rows": [list(r) for r in rows], "payload": None}
-        if special == "doomed":
+        if special == "nopayload" and engine != "sql":
+            # a hand-built statically empty leaf without any payload (what an engine that keeps the base-class
+            # get_doomed_payload() hands out): never evaluated, must still refuse attach_payload()
+            rel = LeafRelation(eng, frozenset(tags), None, name=name, min_rows=0, max_rows=0)
+        elif special in ("doomed", "nopayload"):
             rel = eng.make_doomed_relation(set(tags), [f"doomed {name}"], name=name)
         elif special == "identity":
             rel = eng.make_join_identity_relation(name=name)
